@@ -24,12 +24,14 @@ CLAIM = dict(
          "from the current source) returns exactly the reference (Python) result — value or exception — whenever that "
          "result is not `undefined` (missing attribute / sentinel in arithmetic or membership / typed matcher on the "
          "left of `in`) or a NoneType TypeError; namespace and record are restored. Inst: generated operator tables = "
-         "documented ones, same primitive per operator; unsupported node classes and operators are rejected. Tie: "
+         "documented ones, same primitive per operator; unsupported node classes and operators are rejected. The "
+         "compiled engine (Python eval in the compiled namespace with the wrapped record) is proved equal to the same "
+         "reference on the grammar restricted to the names both namespaces bind, hence both engines agree. Tie: "
          "translator + generated expressions x records, model compared with both real engines, three-way vote with "
          "CPython eval as oracle.",
     note="partial: `Supported` admits generator expressions only as the sole argument of any/all with one `for` "
-         "clause and a fresh variable; the compiled engine is covered by correspondence (compiledMatch vs "
-         "CompiledSelector) and the vote, not by a Lean theorem; floats, `/`, field_regex, str/repr of non-builtin "
+         "clause and a fresh variable; the compiled-engine theorem excludes field-type constructors and `fields` "
+         "(not bound in the compiled namespace); floats, `/`, field_regex, str/repr of non-builtin "
          "values are opaque or unmodelled in the concrete Prim; typed matcher on the left of in/not in is a known "
          "finding (engines disagree).",
     technique="Lean 4 structural-induction theorem over an executable interpreter model + three-way differential oracle",
